@@ -304,6 +304,8 @@ def _force(rng, case, what):
   for lp in case['prog']['leaves']:
     lp['final'] = 0
     lp['init'] = 0 if what == 'init0' else 1
+  case.pop('cin_form', None)
+  case.pop('shared_form', None)
   if what == 'init0':
     case['cin_form'] = rng.choice(['empty', 'none'])
   else:
